@@ -2688,7 +2688,8 @@ def check_C13(tier):
     texts = c13_texts(tier, rng)
     work = common.tmpdir("c13")
     cli = os.path.join(common.BIN, "yaccgo")
-    DEADLINE = 6
+    # the deadline is three orders of magnitude above the normal run time; on a heavily loaded machine it grows with the load
+    DEADLINE = min(60, int(6 * max(1.0, 2.0 * os.getloadavg()[0] / (os.cpu_count() or 1))))
 
     def one(job):
         i, mode = job
@@ -2748,8 +2749,14 @@ def check_C13(tier):
     hung = set(i for (i, mode, outc, dt) in results if outc == "HANG")
     ascii_cases = [{"id": "t%d" % i, "src": t} for i, t in enumerate(texts) if all(ord(ch) < 128 for ch in t) and i not in hung]
     rec = run_front(ascii_cases)
+    rerun_budget = 5
     for c in ascii_cases:
         d = digest_front(rec[c["id"]]["impl"])
+        if d["hang"] and rerun_budget > 0:
+            # an in-process deadline was missed: run this text once more, alone, before it is reported
+            rerun_budget -= 1
+            rec[c["id"]] = run_front([c])[c["id"]]
+            d = digest_front(rec[c["id"]]["impl"])
         if d["hang"]:
             violations.append({"key": common.finding_key({"text": c["src"], "mode": "in-process"}),
                                "what": "front end does not finish on an input text (%s)" % d["hang"],
